@@ -50,7 +50,8 @@ def main():
         cwd = os.path.join(wt, "dnsrocks")
         rc0, out0 = sh(demo_cmd, cwd)
         log["demo_without_patch"] = {"rc": rc0, "tail": out0[-600:]}
-        rc, out = sh("git apply --whitespace=nowarn %s" % patch, wt)
+        rc, out = sh("git apply --whitespace=nowarn %s || git apply --3way --whitespace=nowarn %s" % (patch, patch), wt)
+        rebased = subprocess.check_output(["git", "-C", wt, "diff", "HEAD"]).decode()
         if rc != 0:
             log["apply"] = out
             print("PATCH DOES NOT APPLY", out)
@@ -82,7 +83,7 @@ def main():
             return 1
         dst = os.path.join(V, "seeded", name)
         os.makedirs(dst, exist_ok=True)
-        shutil.copy(patch, os.path.join(dst, "patch.diff"))
+        open(os.path.join(dst, "patch.diff"), "w").write(rebased)   # the patch as it applies to /repo HEAD at confirmation
         for d in demos:
             os.makedirs(os.path.dirname(os.path.join(dst, "demo", d)), exist_ok=True)
             shutil.copy(os.path.join(awt, d), os.path.join(dst, "demo", d))
